@@ -243,6 +243,16 @@ func buildC19k(c C19Case, retain func(*restful.Request)) (*restful.Container, in
 				m["injected"] = v
 			}
 		}
+		// SelectedRoute().Metadata() "returns a copy": what a request notes down there is its own
+		meta := "-"
+		if sr := req.SelectedRoute(); sr != nil {
+			if md := sr.Metadata(); md != nil {
+				if v := req.Request.Header.Get("X-Inject"); v != "" {
+					md["noted"] = v
+				}
+				meta = fmt.Sprint(sr.Metadata()["noted"])
+			}
+		}
 		// a setting of this response only
 		if req.Request.Header.Get("X-Compact") != "" {
 			resp.PrettyPrint(false)
@@ -261,7 +271,7 @@ func buildC19k(c C19Case, retain func(*restful.Request)) (*restful.Container, in
 			doc = sr.Doc()
 		}
 		resp.Header().Set("X-Route", id)
-		text := fmt.Sprintf("route=%s sel=%s doc=%s params=%s tag=%v stag=%v rtag=%v", id, sel, doc, strings.Join(ps, ","), req.Attribute("tag"), req.Attribute("stag"), req.Attribute("rtag"))
+		text := fmt.Sprintf("route=%s sel=%s doc=%s params=%s tag=%v stag=%v rtag=%v meta=%s", id, sel, doc, strings.Join(ps, ","), req.Attribute("tag"), req.Attribute("stag"), req.Attribute("rtag"), meta)
 		ent := c19Entity{Route: id, Sel: sel, Params: strings.Join(ps, ","), Tags: fmt.Sprint(req.Attribute("tag"), req.Attribute("stag"), req.Attribute("rtag"))}
 		switch c.Modes[id] {
 		case 7, 8:
